@@ -15,6 +15,7 @@ import (
 	"fmt"
 	"os"
 	"path/filepath"
+	"runtime"
 	"runtime/debug"
 	"sort"
 	"strings"
@@ -30,8 +31,11 @@ import (
 )
 
 func TestMain(m *testing.M) {
-	// every run allocates a VM (~90 KB) and one Int per arithmetic step
+	// every run allocates a VM (~90 KB) and one Int per arithmetic step; a
+	// shard is one VM goroutine plus its watchdog, and the driver runs many
+	// shards side by side
 	debug.SetGCPercent(400)
+	runtime.GOMAXPROCS(2)
 	// maintenance: VERIF_C16_OPEN_OFF=F3 runs with the exclusion of an open
 	// finding switched off (to validate a candidate repair in a scratch copy)
 	for _, id := range strings.Split(os.Getenv("VERIF_C16_OPEN_OFF"), ",") {
